@@ -151,14 +151,14 @@ ALLCMDS = ["incr", "decr", "set_np", "restart", "reload", "kill", "signal", "sto
            "numprocesses"]
 PROFILES.update({
     "count": {"singleton": True, "cmds": ["incr", "decr", "set_np", "restart", "reload", "kill"], "steps": 30},
-    "stop": {"cmds": ["stop", "stop", "kill", "restart", "start", "incr", "decr", "set_np", "set_opt", "set_opt", "status"], "stubborn": 0.5,
+    "stop": {"cmds": ["stop", "stop", "rm", "kill", "restart", "start", "incr", "decr", "set_np", "set_opt", "set_opt", "status"], "stubborn": 0.5,
              "kcall_deaths": 0.6, "hooks": ["after_spawn", "before_stop", "after_stop"], "norespawn": True},
     "term": {"max_age": 0.3, "killover": 0.6, "Gs": [0.0, 0.2, 0.3, 0.5, 0.8], "stop_children": True, "stop_signal": True, "fork": 0.15, "stubborn": 0.5,
              "cmds": ["stop", "kill", "decr", "restart", "reload", "signal"], "instant": 0.2},
     "acct": {"watchers": 3, "badnb": 0.05, "hooks": ["before_spawn", "after_spawn", "before_start", "after_start"], "faults": 0.3,
              "kcall_deaths": 0.6, "cmds": ["start", "stop", "incr", "decr", "kill", "restart", "list", "numprocesses"],
              "norespawn": True},
-    "overlap": {"Gs": [0.2, 0.3, 0.5, 1.0], "cmds": ["kill", "kill", "signal", "stop", "restart", "reload", "start", "incr", "status", "list",
+    "overlap": {"Gs": [0.2, 0.3, 0.5, 1.0], "cmds": ["kill", "kill", "signal", "stop", "restart", "reload", "start", "incr", "decr", "decr", "set_np", "status", "list",
                          "numprocesses"], "stubborn": 0.6, "partial": 0.5, "steps": 20},
     "events": {"cmds": ["incr", "decr", "set_np", "reload", "kill", "stop", "start", "restart"], "kcall_deaths": 0.5,
                "steps": 30},
@@ -476,8 +476,13 @@ def overlap_profile(seed):
     ws = [{"name": "w1", "np": rng.choice([2, 3, 4]), "G": rng.choice([0.3, 0.5, 1.0]), "W": rng.choice([0.0, 0.1])},
           {"name": "w2", "np": rng.choice([1, 2]), "G": rng.choice([0.2, 0.5]), "W": 0.0}]
     s = [{"op": "boot"}, {"op": "tick", "n": rng.randint(6, 12)}]
-    c = rng.choice(["stop", "stop", "restart", "rm", "quit", "stopall", "decr", "reload", "status"])
+    c = rng.choice(["stop", "stop", "restart", "rm", "quit", "stopall", "decr", "decr", "setnp", "reload", "status"])
     waiting = rng.random() < 0.6
+    if rng.random() < 0.5:
+        # a non-exclusive kill of one worker is still inside its grace period when the operation arrives
+        s.append({"op": "req", "cmd": "kill", "props": {"name": "w1", "pidsel": rng.randint(0, 3), "waiting": False,
+                                                        "graceful_timeout": rng.choice([0.3, 0.6, 1.0])}})
+        s.append({"op": "tick", "n": rng.randint(0, 2)})
     if c in ("stop", "restart"):
         s.append({"op": "req", "cmd": c, "props": {"name": "w1", "waiting": waiting}})
     elif c == "rm":
@@ -488,6 +493,9 @@ def overlap_profile(seed):
         s.append({"op": "req", "cmd": "stop", "props": {}})
     elif c == "decr":
         s.append({"op": "req", "cmd": "decr", "props": {"name": "w1", "nb": rng.choice([1, 2]), "waiting": waiting}})
+    elif c == "setnp":
+        s.append({"op": "req", "cmd": "set", "props": {"name": "w1", "waiting": waiting,
+                                                       "options": {"numprocesses": rng.choice([0, 1])}}})
     elif c == "reload":
         s.append({"op": "req", "cmd": "reload", "props": {"name": "w1", "graceful": True, "sequential": rng.random() < 0.5,
                                                           "waiting": waiting}})
